@@ -82,6 +82,14 @@ package xmlenc
 //@ contract (GCM).Decrypt
 //@ requires[cfg] el: ciphertextEl != nil
 //@ requires[cfg] cipher: e.cipher != nil
+//@ -- C11: every byte of the cipher value goes through the AEAD: the first NonceSize bytes as the nonce, all the rest as
+//@ -- the sealed text (so any modification is rejected by Open, assumed authentic), no additional data, and plaintext is
+//@ -- returned only when Open succeeded
+//@ assert@call[C10,C11] field:xmlenc.GCM.cipher #1 (fn func([]byte) (cipher.Block, error), k []byte) uses keyBuf []byte keys_cipher_with_given_key:
+//@    sameSlice(k, keyBuf) && len(k) == e.keySize
+//@ assert@call[C10,C11] Open #1 (a cipher.AEAD, dst []byte, n []byte, sealed []byte, ad []byte) uses aesgcm cipher.AEAD, nonce []byte, text []byte opens_whole_value:
+//@    a == aesgcm && sameSlice(n, nonce) && sameSlice(sealed, text) && len(n) == a.NonceSize() && cap(n) == cap(sealed)+len(n) && len(ad) == 0
+//@ ensures[C11] nilonerr: err != nil ==> result == nil
 
 //@ contract (RSA).Decrypt
 //@ requires[cfg] el: ciphertextEl != nil
